@@ -119,6 +119,15 @@ def h_iters(n, k, segs, queries):
                         ctx.check((n in rs) == (n in expected) and ((n + 1) in rs) == ((n + 1) in expected), "x in rule wrong", key="query-contains", trace=trace)
                     else:
                         ctx.check(rs.between(0, n + 1) == expected, "between() wrong", key="query-between", trace=trace)
+                        # bounds that ARE occurrences, inclusive and exclusive, whatever state the cache is in
+                        for (a, b) in ((1, n), (1, 1), (n, n), (n // 2 + 1, n)) if n else ():
+                            ctx.check(rs.between(a, b, inc=True) == [x for x in expected if a <= x <= b],
+                                      "between(%d, %d, inc=True) differs from the uncached answer" % (a, b), key="query-between-inc", trace=trace)
+                            ctx.check(rs.between(a, b) == [x for x in expected if a < x < b],
+                                      "between(%d, %d) differs from the uncached answer" % (a, b), key="query-between-exc", trace=trace)
+                        if n:
+                            ctx.check(rs.after(1, inc=True) == 1 and rs.before(n, inc=True) == n and rs.after(n) is None and rs.before(1) is None,
+                                      "after()/before() at an occurrence differ from the uncached answer", key="query-after-before", trace=trace)
             except Deadlock:
                 ctx.fail("an operation blocks forever: the cache lock is still held by a finished fill",
                          key="deadlock-lock-left-held", trace=trace)
